@@ -768,17 +768,32 @@ func (g *wGen) opWritePrepared(wc *wConn, pm *wPM) {
 		// so the image built for this key — an environment answer of compress/flate — would not be observable
 		return
 	}
-	if (pm.t == 1 || pm.t == 2) && wc.cur != nil && !wc.cur.closed {
-		if !g.opt.allowF8 {
-			return
+	isD := pm.t == 1 || pm.t == 2
+	var prev *openMsg
+	hadOpen := false
+	if isD {
+		// a prepared data message closes the writer the application left open, like NextWriter /
+		// WriteMessage (repair of finding F8; the wf8 stream concentrates on this)
+		_, prev = g.prevEnv(wc)
+		hadOpen = wc.cur != nil && !wc.cur.closed
+		if hadOpen {
+			wc.f8 = true
+			g.sc.tag("prepared-data-while-writer-open")
 		}
-		wc.f8 = true
 	}
 	fb := wc.t.faultFired
 	err := wc.c.WritePreparedMessage(pm.pm)
 	g.failStop(wc, fb, err, "WritePreparedMessage")
 	evs := g.log.take()
 	env := ""
+	if isD {
+		env = g.envPrev(wc, prev)
+		if hadOpen {
+			implicitSent(wc)
+		}
+		wc.cur = nil
+		wc.live = false
+	}
 	if compress && !pm.cached[key] {
 		img := ""
 		for _, e := range evs {
@@ -787,7 +802,7 @@ func (g *wGen) opWritePrepared(wc *wConn, pm *wPM) {
 			}
 		}
 		om := &openMsg{level: wc.level, writes: [][]byte{pm.data}}
-		env = fmt.Sprintf(" img=%s full=%s", img, hx(om.full()))
+		env += fmt.Sprintf(" img=%s full=%s", img, hx(om.full()))
 	}
 	pm.cached[key] = true
 	if err == nil {
@@ -795,7 +810,8 @@ func (g *wGen) opWritePrepared(wc *wConn, pm *wPM) {
 	}
 	// C19: the framing variant matches this connection's role and compression settings at the time of
 	// the call (judged on the bytes handed to the transport by this call)
-	for _, e := range evs {
+	for i := len(evs) - 1; i >= 0; i-- {
+		e := evs[i] // the last transport write of the call is the prepared frame (an implicit close writes before it)
 		if !strings.HasPrefix(e, "wr:") {
 			continue
 		}
@@ -1051,7 +1067,7 @@ func writerOracle(sc *scenario, wc *wConn) {
 			break
 		}
 	}
-	if wc.faulted || wc.errSeen || wc.f8 {
+	if wc.faulted || wc.errSeen {
 		return
 	}
 	// fault-free, error-free program: wire messages = API messages in order
